@@ -14,6 +14,7 @@ inverse), used by the C05 oracle as the INDEPENDENT reference for RFC 9001 §5 /
 Appendix A / RFC 9369 Appendix A); they are tests, not proof obligations.
 -/
 import Uquic.Model.Crypto.Bytes
+import Uquic.Model.Crypto.RfcConst
 
 namespace Uquic.Model.Prim
 open Uquic.Model.Bytes
@@ -222,10 +223,6 @@ def gcmOpen (key nonce aad sealed : Bytes) : Option Bytes :=
 
 /-! ### QUIC (RFC 9001 §5.2, RFC 9369 §3.3.1–3.3.3) -/
 
-/-- RFC 9001 §5.2 `initial_salt` -/
-def saltV1 : Bytes := (ofHex "38762cf7f55934b34d179ae6a4c80cadccbb7f0a").getD []
-/-- RFC 9369 §3.3.1 -/
-def saltV2 : Bytes := (ofHex "0dede3def700a6db819381be6e269dcbf9bd2ed9").getD []
 
 structure InitialKeys where
   secret : Bytes
@@ -237,28 +234,25 @@ deriving Repr, BEq
 /-- RFC 9001 §5.1 / RFC 9369 §3.3.2: packet protection key, IV and header protection key of a traffic
     secret, for a cipher suite with SHA-256 and 16-byte keys (Initial packets; TLS_AES_128_GCM_SHA256) -/
 def trafficKeys (ver : Nat) (secret : Bytes) : InitialKeys :=
-  let pre := if ver == 2 then "quicv2 " else "quic "
-  { secret := secret, key := hkdfExpandLabel secret (pre ++ "key") 16, iv := hkdfExpandLabel secret (pre ++ "iv") 12,
-    hp := hkdfExpandLabel secret (pre ++ "hp") 16 }
+  { secret := secret, key := hkdfExpandLabel secret (Rfc.keyLabel ver) 16, iv := hkdfExpandLabel secret (Rfc.ivLabel ver) 12,
+    hp := hkdfExpandLabel secret (Rfc.hpLabel ver) 16 }
 
 /-- RFC 9001 §6.1 / RFC 9369 §3.3.2: the next generation's secret ("quic ku", for QUIC v2 "quicv2 ku") -/
 def nextSecret (ver : Nat) (secret : Bytes) : Bytes :=
-  hkdfExpandLabel secret (if ver == 2 then "quicv2 ku" else "quic ku") 32
+  hkdfExpandLabel secret (Rfc.kuLabel ver) 32
 
 /-- `ver` is 1 or 2. Returns (client, server). -/
 def initialKeys (ver : Nat) (dcid : Bytes) : InitialKeys × InitialKeys :=
-  let initial := hkdfExtract (if ver == 2 then saltV2 else saltV1) dcid
+  let initial := hkdfExtract (Rfc.salt ver) dcid
   (trafficKeys ver (hkdfExpandLabel initial "client in" 32), trafficKeys ver (hkdfExpandLabel initial "server in" 32))
 
 /-- RFC 9001 §5.4.3: `mask = AES-ECB(hp_key, sample)`, first 5 bytes -/
 def aesHPMask (hpKey sample : Bytes) : Bytes := (aes128 hpKey sample).take 5
 
 /-- RFC 9001 §5.8 / RFC 9369 §3.3.3 -/
-def retryKey (ver : Nat) : Bytes := (ofHex (if ver == 2 then "8fb4b01b56ac48e260fbcbcead7ccc92" else "be0c690b9f66575a1d766b54e368c84e")).getD []
-def retryNonce (ver : Nat) : Bytes := (ofHex (if ver == 2 then "d86969bc2d7c6d9990efb04a" else "461599d35d632bf2239825bb")).getD []
 
 def retryIntegrityTag (ver : Nat) (odcid retry : Bytes) : Bytes :=
-  gcmSeal (retryKey ver) (retryNonce ver) ([UInt8.ofNat odcid.length] ++ odcid ++ retry) []
+  gcmSeal (Rfc.retryKey ver) (Rfc.retryNonce ver) ([UInt8.ofNat odcid.length] ++ odcid ++ retry) []
 
 /-! ### tests against published vectors (not obligations) -/
 
